@@ -9,6 +9,7 @@ package content
 //@ import io "io"
 //@ import digest "github.com/opencontainers/go-digest"
 //@ import ocispec "github.com/opencontainers/image-spec/specs-go/v1"
+//@ import errdef "oras.land/oras-go/v2/errdef"
 //@
 //@ ghost descOf(vr *VerifyReader) ocispec.Descriptor
 //@ ghost srcOf(vr *VerifyReader) io.Reader
@@ -72,3 +73,18 @@ package content
 //@   ensures [content-addressed] result1 == nil ==> (forall i int :: 0 <= i && i < len(result0) ==> succOf(K(node), K(result0[i])))
 //@   ensures [content-addressed] result1 == nil ==> (forall s descriptor.Descriptor :: succOf(K(node), s) ==> (exists i int :: 0 <= i && i < len(result0) && K(result0[i]) == s))
 //@   modifies alloc, elems[ocispec.Descriptor], elems[byte]
+//@
+//@ func NewDescriptorFromBytes
+//@   ensures [C19:descriptor-of-bytes] result.MediaType == (mediaType == "" ? "application/octet-stream" : mediaType) && result.Digest == digestOfBytes(content) && result.Size == len(content)
+//@   ensures [C19:no-extras] result.Annotations == nil && result.ArtifactType == "" && result.Platform == nil && result.URLs == nil && result.Data == nil
+//@   modifies nothing
+//@
+//@ iface Pusher.Push params ctx, expected, content
+//@   ensures pushes(self) == old(pushes(self)) + 1 && lastPush(self) == expected
+//@   ensures forall o Pusher :: o != self ==> pushes(o) == old(pushes(o)) && lastPush(o) == old(lastPush(o))
+//@   ensures result == nil || errors.Is(result, errdef.ErrAlreadyExists) ==> present(self, K(expected))
+//@   ensures forall o any, k descriptor.Descriptor :: old(present(o, k)) ==> present(o, k)
+//@   modifies ghost.pushes, ghost.lastPush, ghost.present, alloc
+//@ iface ReadOnlyStorage.Exists params ctx, target
+//@   ensures result0 && result1 == nil ==> present(self, K(target))
+//@   modifies alloc
